@@ -43,10 +43,10 @@ def peer_pdus(sc):
     return out
 
 
-def run_one(sc, req, j, name, mutated, orig_rec, orig):
+def run_one(sc, req, j, name, mutated, orig_rec, orig, ending='FIN'):
     def fn(rec, b):
         return mutate.reframe(orig_rec, orig, mutated)
-    p = ulcorpus.play(ops_upto_pdu(sc, j) + [('FIN',)], req, mutate=(j, fn))
+    p = ulcorpus.play(ops_upto_pdu(sc, j) + [(ending,)], req, mutate=(j, fn))
     finish(p)
     return p
 
@@ -55,7 +55,8 @@ def main(tier='quick'):
     v = Verdict('C12', tier)
     sd = seed()
     mcs = []
-    for cfg in ('MC_ULProvider_accF.cfg', 'MC_ULProvider_reqF.cfg'):
+    # quick: safety with the fault vocabulary (liveness with faults is part of the thorough tier)
+    for cfg in (('MC_ULProvider_accF_safe.cfg', 'MC_ULProvider_reqF_safe.cfg') if tier == 'quick' else ('MC_ULProvider_accF.cfg', 'MC_ULProvider_reqF.cfg')):
         r = tlc.run('MC_ULProvider', cfg, workers=16, timeout=3000)
         if not r.ok:
             raise Machinery('the specification with faults fails TLC (%s): %s %s' % (cfg, r.violated, r.errors[:2]))
@@ -72,9 +73,11 @@ def main(tier='quick'):
                     for mname, mb in mutate.mutators(b, rng):
                         if rep and not (mname.startswith('bitflip') or mname.startswith('random') or mname == 'cmd-garbage'):
                             continue
-                        p = run_one(sc, req, j, mname, mb, rec, b)
+                        n_mut = len(runs)
+                        ending = 'RESET' if n_mut % 4 == 3 else 'FIN'      # every fourth ending is a connection reset
+                        p = run_one(sc, req, j, mname, mb, rec, b, ending)
                         runs.append(p.run)
-                        recipes.append({'req': req, 'conv': name, 'pdu': j, 'mutator': mname, 'bytes': mb.hex()})
+                        recipes.append({'req': req, 'conv': name, 'pdu': j, 'mutator': mname, 'bytes': mb.hex(), 'ending': ending})
     stats = ulcheck.validate(v, runs, recipes, chunk=2500)
     cells = stats.pop('cells')
     ev = {
@@ -99,7 +102,7 @@ def replay(doc):
     corp = ulcorpus.REQUESTOR if rec['req'] else ulcorpus.ACCEPTOR
     sc = corp[rec['conv']]
     orig_rec, orig = peer_pdus(sc)[rec['pdu']]
-    p = run_one(sc, rec['req'], rec['pdu'], rec['mutator'], bytes.fromhex(rec['bytes']), orig_rec, orig)
+    p = run_one(sc, rec['req'], rec['pdu'], rec['mutator'], bytes.fromhex(rec['bytes']), orig_rec, orig, rec.get('ending', 'FIN'))
     v = Verdict('C12', 'quick')
     ulcheck.validate(v, [p.run], [rec])
     for x in v.violations:
